@@ -81,3 +81,50 @@ Proof.
     + exists ext. auto.
     + exists (j :: ext). rewrite <- app_assoc in A2. split; [exact A2|]. intros [->|X]; [congruence|contradiction].
 Qed.
+
+(* whatever sits in resultsChan or was read from it has been sent there *)
+Definition InvR2 (s : state) : Prop := forall i, finished s i -> In i (fwdlog s).
+
+Lemma InvR2_step c s l s' : InvB s -> InvS c s -> InvR2 s -> step c s l = Some s' -> InvR2 s'.
+Proof.
+  intros HB HS P H. unfold InvR2, finished in *. pose proof HB as (B1 & B2 & B3 & B4).
+  destr_step H; bprop; use_lt HB;
+  try (match goal with R : rst _ = RFwdDec ?e |- _ => destruct e end; cbn [set_rst set_outst set_sub fwd_next]);
+  cbn; intros k F; try (apply in_or_app);
+  try solve [ auto | upd_cases; try (destruct F; discriminate); auto
+            | upd_cases; [right; left; reflexivity|left; auto]
+            | upd_cases; [apply P; left; assumption|auto] ].
+  upd_cases; [exfalso|auto]. destruct HS as (_ & _ & _ & _ & _ & _ & S7).
+  pose proof (S7 _ _ _ H) as K. destruct (stage_ok_cases _ _ K) as [->|(-> & _)]; destruct F; discriminate.
+Qed.
+
+Lemma reach_InvR2 c s : reach c s -> InvR2 s.
+Proof.
+  induction 1; [intros i [F|F]; discriminate F|eapply InvR2_step; eauto using reach_InvB, reach_InvS].
+Qed.
+
+Lemma applied_step c s l s' : step c s l = Some s' ->
+  applied s' = applied s \/ exists j, applied s' = applied s ++ [j] /\ loc s j = LRCur.
+Proof.
+  intros H. destr_step H; bprop;
+  try (match goal with R : rst _ = RFwdDec ?e |- _ => destruct e end; cbn [set_rst set_outst set_sub fwd_next]);
+  cbn; try (left; reflexivity). right. eexists. split; [reflexivity|assumption].
+Qed.
+
+Lemma finished_below_run c n : forall ls s s', reach c s -> (forall i, i < n -> finished s i) ->
+  run c s ls = Some s' ->
+  (forall i, i < n -> finished s' i) /\ exists later, applied s' = applied s ++ later /\ forall j, In j later -> n <= j.
+Proof.
+  induction ls as [|l ls IH]; intros s s' R F H; cbn in H.
+  - injection H as <-. split; [exact F|]. exists []. rewrite app_nil_r. split; [reflexivity|contradiction].
+  - destruct (step c s l) as [s1|] eqn:E; [|discriminate].
+    assert (F1 : forall i, i < n -> finished s1 i).
+    { intros i Hi. apply (finished_step c s l s1 i (reach_InvB c s R) (F i Hi) E). }
+    destruct (IH s1 s' (reach_step c s l s1 R E) F1 H) as (F2 & later & A2 & N). split; [exact F2|].
+    destruct (applied_step c s l s1 E) as [A|(j & A & Lj)]; rewrite A in A2.
+    + exists later. auto.
+    + exists (j :: later). rewrite <- app_assoc in A2. split; [exact A2|].
+      intros k [<-|X]; [|apply N; exact X].
+      destruct (Nat.le_gt_cases n j) as [G|G]; [exact G|exfalso].
+      destruct (F j G) as [X|X]; congruence.
+Qed.
